@@ -132,12 +132,14 @@ static int stub_log(const uscxml_ctx *ctx, const char *label, const char *expr) 
     int n = (expr[1] - '0') * 10 + (expr[2] - '0');
     if (expr[0] == 'I' || expr[0] == 'H') {
       /* content of an <initial> transition (I<nn>) / of the default transition of a history (H<nn>), nn = number of the parent state */
-      int p = -1;
+      int p = -1, ps = -1;
       for (int j = 1; j < D_N; j++) if (d_lognum[j] == n) p = j;
+      /* the pseudo-state concerned: the <initial> child (I) / the first history child (H) of state p */
+      for (int j = D_N - 1; j >= 1; j--) if (p >= 0 && d_parent[j] == p && (expr[0] == 'I' ? d_kind[j] == K_INITIAL : sp_is_history(j))) ps = j;
       __CPROVER_assert(g_phase == 3 && n == g_last, "C04.order: the content of an <initial> transition / of a default history transition runs right after the onentry content of the parent state");
-      if (p >= 0) {
-        __CPROVER_assert(!sp_bit(G.il, p), "C04.content: the content of an <initial> / default history transition runs at most once per step");
-        G.il[p >> 3] = (unsigned char)(G.il[p >> 3] | (1u << (p & 7)));
+      if (ps >= 0) {
+        __CPROVER_assert(!sp_bit(G.il, ps), "C04.content: the content of an <initial> / default history transition runs at most once per step");
+        G.il[ps >> 3] = (unsigned char)(G.il[ps >> 3] | (1u << (ps & 7)));
       }
       return USCXML_ERR_OK;
     }
@@ -461,6 +463,17 @@ void h_step(void) {
         wit_row = t;
         __CPROVER_assert(sp_bit(G.tl, t) == sel[t], "C04.content: transition content runs exactly for the transitions of the optimal enabled transition set");
       }
+      for (int t = 0; t < D_T; t++) {
+        int ps = d_tsrc[t];
+        if (sp_proper(ps) || !d_thascontent[t]) continue;
+        /* only the first history child of a state is tracked by the H<nn> convention */
+        int first = 1;
+        for (int j = 1; j < ps; j++) if (d_parent[j] == d_parent[ps] && sp_is_history(j) && sp_is_history(ps)) first = 0;
+        if (!first) continue;
+        wit_row = t;
+        __CPROVER_assert(sp_bit(G.il, ps) == (sp_bit(sps_pseudo, ps) && sp_bit(se, d_parent[ps])),
+                         "C04.content: the content of an <initial> transition / a default history transition runs exactly when that transition is taken in a step that enters the parent state");
+      }
     }
 #endif
 #if D_SEQ > 0
@@ -476,8 +489,8 @@ void h_step(void) {
         if (!d_seq_trans[t]) continue;
         wit_row = t;
         if (sp_proper(d_tsrc[t])) __CPROVER_assert(G.seq_started[d_seq_trans[t]] == sel[t], "C04.content: the content of a transition runs exactly once if the transition is taken, else not at all");
-        else __CPROVER_assert(G.seq_started[d_seq_trans[t]] == 0 || (G.seq_started[d_seq_trans[t]] == 1 && sp_bit(se, d_parent[d_tsrc[t]])),
-                              "C04.content: the content of an <initial> / default history transition runs at most once, and only in a step that enters the parent state");
+        else __CPROVER_assert(G.seq_started[d_seq_trans[t]] == (sp_bit(sps_pseudo, d_tsrc[t]) && sp_bit(se, d_parent[d_tsrc[t]])),
+                              "C04.content: the content of an <initial> / default history transition runs exactly once when that transition is taken in a step that enters the parent state, else not at all");
       }
     }
 #endif
